@@ -190,7 +190,7 @@ pub fn run(ctx: &Ctx) {
     ctx.set_rule("proptest-generated values of every type implementing the byte-identity trait (u8, u16, u32, u64, i16, i32, String incl. multi-byte text, Vec<u8>, Vec<u16>, Vec<u32>; vector lengths 0..19, around allocator size classes up to 4097, 65535/65536 and 1e5, plus a few vectors of 1e6 .. 1.7e7 elements described by (length, seed)). \
         Each value is processed in a child process built normally and again in a child built with AddressSanitizer: get_sig() twice (with allocator churn in between) must equal the independently computed native-endian bytes, and ProbMinHash3aSha over keys of that type must complete and give the same signature for two insertion orders. \
         Abnormal termination of a child (glibc abort, ASan report) is the memory-safety signal; the crashing value is isolated and shortened. Non-trivial = non-empty value. Distinct = distinct (value, engine).");
-    ctx.assume("AddressSanitizer catches use-after-free, double free and out-of-bounds accesses; a deallocation with a mismatched layout is only caught by the Miri run of the thorough tier");
+    ctx.assume("AddressSanitizer catches use-after-free, double free and out-of-bounds accesses; a deallocation with a mismatched layout is only caught by the Miri run (40 values in the quick tier, 150 in the thorough tier)");
     super::run_fixed_tier(ctx, replay);
     if !asan_exe().exists() {
         ctx.infra(format!("{} missing (./check builds it)", asan_exe().display()));
@@ -230,14 +230,17 @@ pub fn run(ctx: &Ctx) {
             }
         });
     }
-    if ctx.tier == Tier::Thorough && ctx.n_violations() == 0 {
-        miri(ctx, &vals);
+    if ctx.n_violations() == 0 {
+        // Miri on a bounded sample (40 values quick, 150 thorough): the only engine that sees a deallocation with a mismatched layout
+        miri(ctx, &vals, ctx.tier.pick(40, 150));
     }
 }
 
 /// thorough tier: a bounded sample under Miri (detects layout-mismatched deallocation and other UB that ASan accepts)
-fn miri(ctx: &Ctx, vals: &[SigVal]) {
-    let sample: Vec<SigVal> = vals.iter().filter(|v| v.len() <= 64).take(150).cloned().collect();
+fn miri(ctx: &Ctx, vals: &[SigVal], n: usize) {
+    // every type is represented: the vector types first (they are the ones implemented with or tempted by unsafe code)
+    let mut sample: Vec<SigVal> = vec![SigVal::VecU16(vec![1, 2, 3]), SigVal::VecU32(vec![7; 5]), SigVal::VecU8(vec![9; 4]), SigVal::Str("añb".into()), SigVal::VecU16(vec![]), SigVal::VecU32(vec![])];
+    sample.extend(vals.iter().filter(|v| v.len() <= 64 && !v.is_big()).take(n.saturating_sub(sample.len())).cloned());
     let dir = verif_root().join("scratch");
     let _ = std::fs::create_dir_all(&dir);
     let pin = dir.join(format!("miri-{}.in.json", std::process::id()));
@@ -267,6 +270,7 @@ fn miri(ctx: &Ctx, vals: &[SigVal]) {
                 }
             }
             ctx.add_class("values:miri", outs.len() as u64);
+            ctx.note("miri", json!(format!("{} values interpreted without undefined behaviour", outs.len())));
         }
         Ok(o) => {
             let err = String::from_utf8_lossy(&o.stderr).to_string();
@@ -276,11 +280,20 @@ fn miri(ctx: &Ctx, vals: &[SigVal]) {
                 // isolate: Miri stops at the first UB, so the culprit is the first value whose type uses unsafe code; report the smallest vector value
                 let culprit = sample.iter().filter(|v| matches!(v, SigVal::VecU16(_) | SigVal::VecU32(_)) && v.len() > 0).min_by_key(|v| v.len()).cloned().unwrap_or(SigVal::VecU16(vec![1]));
                 ctx.violation("values", &culprit, &format!("Miri reports undefined behaviour while obtaining byte identities: {}", headline.trim()));
-            } else {
+            } else if ctx.tier == Tier::Thorough {
                 ctx.infra(format!("miri run failed: {}", err.lines().last().unwrap_or("")));
+            } else {
+                // quick tier: Miri is an extra engine; its unavailability is recorded, not fatal
+                ctx.note("miri", json!(format!("unavailable in this run: {}", err.lines().last().unwrap_or(""))));
             }
         }
-        Err(e) => ctx.infra(format!("cannot start cargo miri: {}", e)),
+        Err(e) => {
+            if ctx.tier == Tier::Thorough {
+                ctx.infra(format!("cannot start cargo miri: {}", e))
+            } else {
+                ctx.note("miri", json!(format!("unavailable in this run: {}", e)));
+            }
+        }
     }
 }
 
@@ -291,8 +304,11 @@ pub fn replay(ctx: &Ctx, sub: &str, case: &Value) -> Result<(), String> {
     }
     for e in [Engine::Plain, Engine::Asan] {
         if !run_batch(ctx, e, std::slice::from_ref(&v), sub) {
-            break;
+            return Ok(());
         }
+    }
+    if !v.is_big() {
+        miri(ctx, std::slice::from_ref(&v), 8);
     }
     Ok(())
 }
